@@ -74,6 +74,7 @@ struct SockStats {
     u64 bytes_accepted = 0; // bytes accepted from the application by send/sendfile
     u64 recv_calls = 0, bytes_received = 0;
     bool closed = false;
+    i64 opened_at = 0, closed_at = -1; // simulated time of socket() / accept and of close()
 };
 const std::vector<SockStats>& sock_stats();
 // counters per epoll instance, indexed by creation order
